@@ -61,6 +61,11 @@ PickDeep == /\ mode = "start" /\ Mode = "main"
 KnownUri(s, au, p) == s \o <<58, 47, 47>> \o au \o p
 KnownPairs == {<<KnownUri(s, a1, <<47, 97, 47, 98, 63, 113, 35, 102>>), KnownUri(s, a2, <<47, 97>>)>> :
                  s \in VKnownScheme, a1 \in VKnownAuth, a2 \in VKnownAuth}
+              \* b is a bare origin (authority, empty path) whose text is a PREFIX of a's text: "s://h" / "s://hh/x", "s://h.evil/x"
+              \cup {<<KnownUri(<<115>>, a1, p), KnownUri(<<115>>, a2, <<>>)>> :
+                      a1 \in {<<104>>, <<104, 104>>, <<104, 46, 101>>, <<104, 58, 56, 48>>, <<>>, <<97>>},
+                      a2 \in {<<104>>, <<>>, <<104, 58>>},
+                      p \in {<<>>, <<47, 120>>, <<47, 47, 120>>, <<47, 120, 63, 113, 35, 102>>}}
 PickKnown == /\ mode = "start" /\ Mode = "main"
              /\ \E pr \in KnownPairs : a' = pr[1] /\ b' = pr[2] /\ mode' = "deep"
                    /\ PrintT(ToJson([k |-> "rel", fam |-> "both", a |-> pr[1], b |-> pr[2]]))
